@@ -5,7 +5,7 @@ interpreted once and each of its outcomes must be an instance of the summary.  A
 longer covers the implementation is analysis-broken (exit 2), never a silent pass."""
 from front import AnalysisBroken
 from interp import Interp, State, Int, NULL, Ref, Str, Fn, Term, Rule, vkey, node_loc
-from model import site
+from model import site, own_alloc
 
 
 def _seq(st, tag):
@@ -24,7 +24,7 @@ def sum_b64decode(it, st, args, node):
         s1.cons[t.k] = (('>=', 1),)
         it.store(s1, args[1].loc, args[1].path, t)
         it.rule.on_store(it, s1, args[1].loc, args[1].path, t, node)
-    s1.trace.append(('alloc', 'jwt', Ref(o), node_loc(node), 'jwt_base64uri_decode'))
+    own_alloc(it, s1, 'jwt', Ref(o), node, 'jwt_base64uri_decode')
     s1.trace.append(('api', 'jwt_base64uri_decode', Ref(o), list(args), node_loc(node)))
     st.trace.append(('api', 'jwt_base64uri_decode', NULL, list(args), node_loc(node)))
     return [(s1, Ref(o)), (st, NULL)]
@@ -41,7 +41,7 @@ def sum_b64encode(it, st, args, node):
         it.rule.on_store(it, s1, args[0].loc, args[0].path, Ref(o), node)
     t = Term(('enclen', tag, _seq(s1, 'enclen:' + tag)))
     s1.cons[t.k] = (('>=', 0),)
-    s1.trace.append(('alloc', 'jwt', Ref(o), node_loc(node), 'jwt_base64uri_encode'))
+    own_alloc(it, s1, 'jwt', Ref(o), node, 'jwt_base64uri_encode')
     s1.trace.append(('api', 'jwt_base64uri_encode', t, list(args), node_loc(node)))
     outs.append((s1, t))
     if it.rule.alloc_may_fail:
